@@ -14,7 +14,7 @@ func init() {
 	register(&Def{
 		ID:    "C05",
 		Level: "exploration",
-		Rule: "all 169 instantiations of the nine conversions x channel counts 1..8 x (source window, destination window) shape pairs with the source shorter than, equal to and longer than the destination, windows of larger stamped buffers, non-frame-aligned lengths x seeded sample values (boundary and random integers; floats in and far outside [-1,1], +-Inf, subnormals, NaN for float->float only); " +
+		Rule: "all 169 instantiations of the nine conversions over the built-in element types plus 31 instantiations over named element types (type NInt16 int16 ...) x channel counts 1..8 x (source window, destination window) shape pairs with the source shorter than, equal to and longer than the destination, windows of larger stamped buffers, non-frame-aligned lengths x seeded sample values (boundary and random integers; floats in and far outside [-1,1], +-Inf, subnormals, NaN for float->float only); " +
 			"two canary arenas (source and destination) are re-read through the hook; every written position is compared with the result of the SAME function on a 1-channel 1-sample buffer holding the same value (position independence), float->float additionally with value preservation / nearest-float32; in addition one fixed input vector per instantiation is converted in three fresh processes that visit the instantiations in different orders, and the driver requires identical result digests (no dependence on the process's history); " +
 			"distinct = distinct (instantiation, shape pair) tuples; non-trivial = common prefix n > 0",
 		Assume: []string{"NaN excluded for float->fixed (result unspecified)", "the numeric correctness of the fixed-point formulas is the subject of C06..C09, here only structure, position independence and float->float value preservation"},
@@ -76,7 +76,8 @@ func nearestF32OK(v float64, r float64) bool {
 // the instantiation only) and reports a digest of the results; the driver
 // requires the digests of different processes to agree.
 func c05Digests(c *core.Ctx) {
-	order := make([]int, len(dyn.Convs))
+	all := dyn.AllConvs()
+	order := make([]int, len(all))
 	for i := range order {
 		order[i] = i
 	}
@@ -92,7 +93,7 @@ func c05Digests(c *core.Ctx) {
 		}
 	}
 	for _, ci := range order {
-		cv := dyn.Convs[ci]
+		cv := all[ci]
 		r := core.NewRand(12345, core.HashStr(cv.Name())) // independent of VERIF_SEED and of the order
 		n := 700
 		in := make([]dyn.Val, 0, n+300)
@@ -138,7 +139,7 @@ func runC05(c *core.Ctx) {
 		c05Digests(c)
 		return
 	}
-	for ci, cv := range dyn.Convs {
+	for ci, cv := range dyn.AllConvs() {
 		if !c.Mine(ci) {
 			continue
 		}
@@ -181,7 +182,7 @@ func runC05(c *core.Ctx) {
 		}
 		c.Obs("instantiations_executed", 1)
 	}
-	c.Floor("instantiations_executed", 169)
+	c.Floor("instantiations_executed", int64(len(dyn.AllConvs())))
 	c.Floor("source_longer", 100)
 	c.Floor("source_shorter", 100)
 	c.Floor("untouched_destination_tail_cells", 1000)
